@@ -46,7 +46,7 @@ def correspond(ctx, scale):
     rng = ctx.rng
     cases, meta, failures, samples = [], [], [], []
     evaluations = nontrivial = 0
-    dist = {'iter_cases': 0, 'iter_discarded_near_tie': 0, 'init_eval_first': 0, 'init_train_first': 0, 'masked': 0, 'cosine': 0, 'more_codes_than_tokens': 0, 'empty_cluster': 0,
+    dist = {'iter_cases': 0, 'iter_discarded_near_tie': 0, 'init_eval_first': 0, 'big_first_batch': 0, 'init_train_first': 0, 'masked': 0, 'cosine': 0, 'more_codes_than_tokens': 0, 'empty_cluster': 0,
             'loop_vs_iterated': 0, 'reload_deepcopy': 0, 'rvq': 0, 'heads': 0}
     n = (40 if not ctx.thorough else 300) * scale
     # ---------- (a) one iteration of the implementation's kmeans() against the model
@@ -95,6 +95,9 @@ def correspond(ctx, scale):
         heads = rng.choice([1, 1, 2])
         sep = heads > 1
         K = rng.choice([1, 2, 4, 8])
+        big = ci % 6 == 5
+        if big:
+            K = rng.choice([1, 2])
         iters = rng.choice([1, 2, 5, 10, 20])
         kw = dict(dim=d * heads, codebook_dim=d, heads=heads, separate_codebook_per_head=sep, codebook_size=K, kmeans_init=True, kmeans_iters=iters,
                   use_cosine_sim=cosine, decay=0.5, threshold_ema_dead_code=0)
@@ -109,6 +112,9 @@ def correspond(ctx, scale):
             return out
         cb.sample_fn = sample_wrap
         b, nn_ = rng.choice([(1, 2), (2, 3), (2, 6), (3, 5)])
+        if big:
+            b, nn_ = 4, 80 * K + rng.choice([1, 17])       # many more tokens than codes (hundreds per code)
+            dist['big_first_batch'] += 1
         x = vqrec.grid(rng, (b, nn_, d * heads), den=8, lim=40)
         kwargs = {}
         masked = rng.random() < 0.35 and nn_ > 1
